@@ -8,6 +8,7 @@ import (
 	"errors"
 	"fmt"
 	"io"
+	"math"
 	"reflect"
 	"slices"
 	"strings"
@@ -30,6 +31,9 @@ func (d *devmodOwnerModule) HandleInfo(ctx context.Context, messageName string, 
 		var numModules int
 		if err := cbor.NewDecoder(messageBody).Decode(&numModules); err != nil {
 			return err
+		}
+		if numModules < 0 || numModules > math.MaxUint16 {
+			return fmt.Errorf("invalid number of devmod modules: %d", numModules)
 		}
 		d.Modules = make([]string, numModules)
 		return nil
@@ -73,6 +77,9 @@ func (d *devmodOwnerModule) parseModules(messageBody io.Reader) error {
 			chunk.Start = idx
 		}
 
+		if chunk.Start+chunk.Len > len(d.Modules) {
+			return fmt.Errorf("devmod module chunk exceeds the announced number of modules")
+		}
 		copy(d.Modules[chunk.Start:chunk.Start+chunk.Len], chunk.Modules)
 	}
 }
